@@ -74,7 +74,7 @@ pub fn b_mfi() -> Vec<Bar> {
     ]
 }
 
-/// 8 bars whose five fields are pairwise distinct and vary independently
+/// 10 bars whose five fields are pairwise distinct and vary independently
 /// (not valid OHLC).
 pub fn b_free() -> Vec<Bar> {
     vec![
@@ -86,6 +86,9 @@ pub fn b_free() -> Vec<Bar> {
         Bar { o: 7.0, h: 10.0, l: 1.0, c: 5.0, v: 4.5 },
         Bar { o: 2.0, h: 0.5, l: 9.0, c: 7.5, v: 1.0 },
         Bar { o: 4.0, h: 3.0, l: 5.0, c: 6.0, v: 8.0 },
+        // zero / negative fields: an "empty bar" special case would show here
+        Bar { o: 5.5, h: 6.5, l: -1.0, c: 0.0, v: 2.5 },
+        Bar { o: -3.0, h: 0.0, l: 8.5, c: -1.5, v: 0.0 },
     ]
 }
 
@@ -184,6 +187,21 @@ pub fn generic_alphabet(kind: Kind, special: bool) -> Vec<Op> {
         }
     }
     v
+}
+
+/// Inexact variant of an alphabet: every finite price x becomes 0.7 x + 0.013
+/// (monotone, spans several binades, sums and products no longer exact) -
+/// needed wherever the oracle is bit-equality, so that a different summation
+/// order or buffer layout becomes observable.
+pub fn roughen(ops: &[Op]) -> Vec<Op> {
+    let f = |x: f64| if x.is_finite() { x * 0.7 + 0.013 } else { x };
+    ops.iter()
+        .map(|op| match op {
+            Op::S(x) => Op::S(f(*x)),
+            Op::B(b) => Op::B(Bar { o: f(b.o), h: f(b.h), l: f(b.l), c: f(b.c), v: if b.v.is_finite() && b.v != 0.0 { b.v * 1.3 + 0.07 } else { b.v } }),
+            Op::Reset => Op::Reset,
+        })
+        .collect()
 }
 
 /// Continuation alphabet: finite values plus NaN and +inf.
